@@ -125,7 +125,7 @@ Cd(sd, name, srv, clock, use) == [spec |-> sd, name |-> name, srv |-> srv, clock
                              cache |-> "main", cfgcache |-> TRUE, ops |-> (IF sd.custom THEN <<Op("Preset", "")>> ELSE <<>>) \o UseOps(use),
                              alias |-> <<>>, role |-> "conn", ctl |-> TRUE]
 C19Space(h) ==
-  CASE Len(h) = 0 -> { Cd(sd, "a.example", srv, 0, "hs") : sd \in C19Parrots, srv \in {s \in C19Srvs : s.keys = 1 /\ s.cookie # 1} }
+  CASE Len(h) = 0 -> { Cd(sd, "a.example", srv, 0, "hs") : sd \in C19Parrots, srv \in {s \in C19Srvs : s.keys = 1 /\ s.cookie = 0} }
     \* the second connection is driven in all three ways when it can meet the first one's session (same parrot, same name)
     [] Len(h) = 1 -> { Cd(sd, n, srv, c, "hs") : sd \in C19Parrots, n \in C19Names, srv \in C19Srvs, c \in {0, 8} }
                      \cup { Cd(h[1].spec, h[1].name, srv, c, u) : srv \in C19Srvs, c \in {0, 8}, u \in {"build", "edit"} }
